@@ -258,10 +258,12 @@ fn visit_tcp(
             WSCALE => {
                 olayout.push(TcpOption::Ws);
 
-                wscale = Some(data[0]);
+                if let Some(&scale) = data.first() {
+                    wscale = Some(scale);
 
-                if data[0] > 14 {
-                    quirks.push(Quirk::ExcessiveWindowScaling);
+                    if scale > 14 {
+                        quirks.push(Quirk::ExcessiveWindowScaling);
+                    }
                 }
             }
             SACK_PERMITTED => {
